@@ -283,6 +283,9 @@ def c11_finding_key(case):
     outer = sql[sql.rfind(")") + 1:] if ")" in sql and sql.rfind("GROUP BY") > sql.rfind(")") else sql
     if q.get("plan") == "nonpushdown" and _re.search(r"GROUP BY _(,| |$)", sql) and "CROSSTAB(" in sql:
         return "underscore-group-with-crosstab"
+    m = _re.search(r"LIMIT (\d+), \d+\s*$", sql)
+    if q.get("plan") == "pushdown" and m and int(m.group(1)) > 0:
+        return "pushdown-offset-applied-twice"
     if q.get("plan") == "pushdown" and "GROUP BY LEN(" in outer:
         return "len-reported-one-to-one"
     return None
